@@ -4,7 +4,6 @@ package main
 import (
 	"fmt"
 	"reflect"
-	"sort"
 
 	tls "github.com/refraction-networking/utls"
 	"verif/harness/vh"
@@ -17,6 +16,7 @@ func run(c *vh.Ctx) {
 	runPairs(c)
 	runSlices(c)
 	runHellos(c)
+	flushCases(c)
 }
 
 // ---- conversion pairs ----
@@ -26,7 +26,7 @@ func runPairs(c *vh.Ctx) {
 	for _, pair := range tls.VerifC31Pairs() {
 		pubF, privF := fieldNames(pair.Pub), fieldNames(pair.Priv)
 		// (1) the struct definitions as the compiler sees them, tied to the model's field tables
-		c.Case("fields", fmt.Sprintf("CFields %s %s %s", coqStr(pair.Name), coqStrs(pubF), coqStrs(privF)),
+		addCase("fields", fmt.Sprintf("CFields %s %s %s", coqStr(pair.Name), coqStrs(pubF), coqStrs(privF)),
 			"fields/"+pair.Name, true, map[string]any{"pair": pair.Name, "pub": pubF, "priv": privF})
 		// (2) who has a counterpart, by name
 		cp := map[string]string{} // pub -> priv
@@ -52,7 +52,7 @@ func runPairs(c *vh.Ctx) {
 		// (3) observed copy flows
 		tp := flows(c.Rng, pair.NewPub, pair.ToPriv, true)
 		tq := flows(c.Rng, pair.NewPriv, pair.ToPub, false)
-		c.Case("flow", fmt.Sprintf("CFlow %s %s %s", coqStr(pair.Name), coqPairs(tp), coqPairs(tq)),
+		addCase("flow", fmt.Sprintf("CFlow %s %s %s", coqStr(pair.Name), coqPairs(tp), coqPairs(tq)),
 			"flow/"+pair.Name, true, map[string]any{"pair": pair.Name, "to_private": tp, "to_public": tq})
 		// every field with a counterpart must flow into it, both ways (Go-side oracle, independent of the model)
 		inFlow := func(fl [][2]string, F, f string) bool {
@@ -87,6 +87,9 @@ func runPairs(c *vh.Ctx) {
 				if cp[F] == "" {
 					continue
 				}
+				if pair.Name == "FinishedHash" && F == "Prfv2" && rd(a, i).IsNil() {
+					continue // with Prfv2 unset the deprecated Prf is wrapped instead (u_public.go:598-602); outside the property's list
+				}
 				if !same(rd(a, i), rd(b, i)) {
 					c.Fail("conv/"+pair.Name+"/"+F+"/pub-priv-pub", "public -> private -> public does not preserve a field that has a counterpart",
 						map[string]any{"pair": pair.Name, "field": F, "value": fmt.Sprintf("%#v", rd(a, i).Interface())},
@@ -107,6 +110,9 @@ func runPairs(c *vh.Ctx) {
 				if !hasPub[f] {
 					continue
 				}
+				if pair.Name == "FinishedHash" && f == "prf" && rd(x, i).IsNil() {
+					continue // a nil prf comes back as a wrapper closure (u_public.go:622, 600); outside the property's list
+				}
 				if !same(rd(x, i), rd(y, i)) {
 					c.Fail("conv/"+pair.Name+"/"+f+"/priv-pub-priv", "private -> public -> private does not preserve a field that has a counterpart",
 						map[string]any{"pair": pair.Name, "field": f, "value": fmt.Sprintf("%#v", rd(x, i).Interface())},
@@ -115,7 +121,9 @@ func runPairs(c *vh.Ctx) {
 			}
 			c.Count("roundtrip-priv/" + pair.Name)
 			// Coq cases for the three message pairs
-			emitConv(c, pair, it)
+			if it < 7+c.N/200 {
+				emitConv(c, pair, it)
+			}
 		}
 		// nil in, nil out
 		if pair.NilPub != nil {
@@ -146,7 +154,7 @@ func emitConv(c *vh.Ctx, pair tls.VerifC31Pair, it int) {
 		if cache.IsNil() || cache.Pointer() != reflect.ValueOf(priv).Pointer() {
 			c.Fail("conv/ClientHello/cache", "getPrivatePtr did not store the private struct in cachedPrivateHello", nil, nil, nil)
 		}
-		c.Case("conv", fmt.Sprintf("CvCHpriv %s %s", in, coqObj(priv)), "CHpriv/"+key, true, nil)
+		addCase("conv", fmt.Sprintf("CvCHpriv %s %s", in, coqObj(priv)), "CHpriv/"+key, true, nil)
 		pr := pair.NewPriv()
 		fill(rng, reflect.ValueOf(pr).Elem(), false, 0)
 		pb := pair.ToPub(pr)
@@ -155,7 +163,7 @@ func emitConv(c *vh.Ctx, pair tls.VerifC31Pair, it int) {
 			c.Fail("conv/ClientHello/cache", "getPublicPtr did not point cachedPrivateHello at its receiver", nil, nil, nil)
 		}
 		cf.Set(reflect.Zero(cf.Type()))
-		c.Case("conv", fmt.Sprintf("CvCHpub %s %s", coqObj(pr), coqObj(pb)), "CHpub/"+key, true, nil)
+		addCase("conv", fmt.Sprintf("CvCHpub %s %s", coqObj(pr), coqObj(pb)), "CHpub/"+key, true, nil)
 	case "ServerHello", "CertReq13":
 		tag := map[string]string{"ServerHello": "SH", "CertReq13": "CR"}[pair.Name]
 		pub := pair.NewPub()
@@ -164,14 +172,14 @@ func emitConv(c *vh.Ctx, pair tls.VerifC31Pair, it int) {
 		} else {
 			fill(rng, reflect.ValueOf(pub).Elem(), false, 0)
 		}
-		c.Case("conv", fmt.Sprintf("Cv%spriv %s %s", tag, coqPtr(pub), coqPtr(pair.ToPriv(pub))), tag+"priv/"+key, it%7 != 6, nil)
+		addCase("conv", fmt.Sprintf("Cv%spriv %s %s", tag, coqPtr(pub), coqPtr(pair.ToPriv(pub))), tag+"priv/"+key, it%7 != 6, nil)
 		pr := pair.NewPriv()
 		if it%7 == 5 {
 			pr = pair.NilPriv()
 		} else {
 			fill(rng, reflect.ValueOf(pr).Elem(), false, 0)
 		}
-		c.Case("conv", fmt.Sprintf("Cv%spub %s %s", tag, coqPtr(pr), coqPtr(pair.ToPub(pr))), tag+"pub/"+key, it%7 != 5, nil)
+		addCase("conv", fmt.Sprintf("Cv%spub %s %s", tag, coqPtr(pr), coqPtr(pair.ToPub(pr))), tag+"pub/"+key, it%7 != 5, nil)
 	}
 }
 
@@ -212,7 +220,7 @@ func runSlices(c *vh.Ctx) {
 				in.Set(reflect.MakeSlice(s.pubT, 0, 0))
 			}
 			out := reflect.ValueOf(s.toPriv(in.Interface()))
-			c.Case("slice", fmt.Sprintf("Cv%spriv %s %s", s.tag, coqVal(in, ""), coqVal(out, "")), fmt.Sprintf("%spriv/%d", s.tag, it), in.Len() > 0, nil)
+			addCase("slice", fmt.Sprintf("Cv%spriv %s %s", s.tag, coqVal(in, ""), coqVal(out, "")), fmt.Sprintf("%spriv/%d", s.tag, it), in.Len() > 0, nil)
 			back := reflect.ValueOf(s.rt(in.Interface()))
 			if !same(in, back) {
 				c.Fail("conv/slice-"+s.tag+"/pub-priv-pub", "slice conversion to private and back changes the elements",
@@ -226,7 +234,7 @@ func runSlices(c *vh.Ctx) {
 				pin.Set(reflect.MakeSlice(privT, 0, 0))
 			}
 			pout := reflect.ValueOf(s.toPub(pin.Interface()))
-			c.Case("slice", fmt.Sprintf("Cv%spub %s %s", s.tag, coqVal(pin, ""), coqVal(pout, "")), fmt.Sprintf("%spub/%d", s.tag, it), pin.Len() > 0, nil)
+			addCase("slice", fmt.Sprintf("Cv%spub %s %s", s.tag, coqVal(pin, ""), coqVal(pout, "")), fmt.Sprintf("%spub/%d", s.tag, it), pin.Len() > 0, nil)
 			pback := reflect.ValueOf(s.toPriv(pout.Interface()))
 			if !same(pin, pback) {
 				c.Fail("conv/slice-"+s.tag+"/priv-pub-priv", "slice conversion to public and back changes the elements",
@@ -234,13 +242,4 @@ func runSlices(c *vh.Ctx) {
 			}
 		}
 	}
-}
-
-func sortedKeys(m map[string]bool) []string {
-	var ks []string
-	for k := range m {
-		ks = append(ks, k)
-	}
-	sort.Strings(ks)
-	return ks
 }
